@@ -11,5 +11,5 @@ CONSTANTS
   SetNodeOnlyBug = TRUE
   InheritRootBug = FALSE
 VIEW View
-INVARIANTS TypeOK PrefixClosed LatestPrefixWins GetLaw EnabledLaw LogLaw GeneratorSound TotalModelAgrees
+INVARIANTS LatestPrefixWins
 CHECK_DEADLOCK FALSE
